@@ -32,7 +32,7 @@ class StateTable(Table):
     def __getitem__(self, selector):
         try:
             return super().__getitem__(selector)
-        except (KeyError, IndexError, DomainError) as e:
+        except (KeyError, IndexError, DomainError, ValueError) as e:
             raise StateActionIndexError(
                 f"{self.__class__.__name__} does not have an entry for {selector}."
             )
